@@ -92,7 +92,11 @@ class PercentModel:
                 out.append((st.target.id, ... if st.value is None else ast.literal_eval(st.value)))
         return out
 
-    def diagnostics(self, template: Any, args: Any) -> Any:
+    def fstring_fix(self, template: str, args_node: ast.AST) -> Any:
+        """("fix", the f-string node that maybe_replace_with_fstring proposes for `template % <args_node>`, or None) | ("crash", why)"""
+        return self.diagnostics(template, None, fix_node=args_node)
+
+    def diagnostics(self, template: Any, args: Any, fix_node: Optional[ast.AST] = None) -> Any:
         """The messages check_string_format would show, or ("crash", why)."""
         errors: List[str] = []
 
@@ -165,6 +169,11 @@ class PercentModel:
         try:
             ctor = self.method_defs[("PercentFormatStringCls", "from_bytes_pattern" if isinstance(template, bytes) else "from_pattern")]
             fs = it.call_def(ctor, [fs_cls, template], ctor)
+            if fix_node is not None:
+                fixer = self.prog.func("format_strings", "maybe_replace_with_fstring")
+                it.module_defs = dict(it.module_defs, _is_simple_enough=self.prog.func("format_strings", "_is_simple_enough"))
+                it.globals["ast"] = ast
+                return ("fix", it.call_def(fixer, [fs, fix_node], fixer))
             for err in it.call_def(self.method_defs[("PercentFormatString", "lint")], [fs], ctor):
                 errors.append(_msg(err))
             for err in it.call_def(self.method_defs[("PercentFormatString", "accept")], [fs, known(args), Opaque("ctx")], ctor):
